@@ -561,6 +561,21 @@ impl ObjectWrite for FormXObject {
     }
 }
 
+/// A real operand as it is written into a content stream.
+///
+/// `{}` prints an integral `f32` without a decimal point. Such a token is read back as an integer and
+/// has to fit an `i32`; larger values keep a trailing `.` so that they are read back as reals.
+struct Real(f32);
+impl Display for Real {
+    fn fmt(&self, f: &mut fmt::Formatter) -> fmt::Result {
+        write!(f, "{}", self.0)?;
+        if self.0.fract() == 0.0 && self.0.abs() >= 2147483648.0 {
+            write!(f, ".")?;
+        }
+        Ok(())
+    }
+}
+
 #[allow(clippy::float_cmp)]  // TODO
 pub fn serialize_ops(mut ops: &[Op]) -> Result<Vec<u8>> {
     use std::io::Write;
@@ -651,17 +666,17 @@ pub fn serialize_ops(mut ops: &[Op]) -> Result<Vec<u8>> {
             Op::Save => writeln!(f, "q")?,
             Op::Restore => writeln!(f, "Q")?,
             Op::Transform { matrix } => writeln!(f, "{} cm", matrix)?,
-            Op::LineWidth { width } => writeln!(f, "{} w", width)?,
-            Op::Dash { ref pattern, phase } => writeln!(f, "[{}] {} d", pattern.iter().format(" "), phase)?,
+            Op::LineWidth { width } => writeln!(f, "{} w", Real(width))?,
+            Op::Dash { ref pattern, phase } => writeln!(f, "[{}] {} d", pattern.iter().map(|&x| Real(x)).format(" "), Real(phase))?,
             Op::LineJoin { join } => writeln!(f, "{} j", join as u8)?,
             Op::LineCap { cap } => writeln!(f, "{} J", cap as u8)?,
-            Op::MiterLimit { limit } => writeln!(f, "{} M", limit)?,
-            Op::Flatness { tolerance } => writeln!(f, "{} i", tolerance)?,
+            Op::MiterLimit { limit } => writeln!(f, "{} M", Real(limit))?,
+            Op::Flatness { tolerance } => writeln!(f, "{} i", Real(tolerance))?,
             Op::GraphicsState { ref name } => {
                 serialize_name(name, f)?;
                 writeln!(f, " gs")?;
             },
-            Op::StrokeColor { color: Color::Gray(g) } => writeln!(f, "{} G", g)?,
+            Op::StrokeColor { color: Color::Gray(g) } => writeln!(f, "{} G", Real(g))?,
             Op::StrokeColor { color: Color::Rgb(rgb) } => writeln!(f, "{} RG", rgb)?,
             Op::StrokeColor { color: Color::Cmyk(cmyk) } => writeln!(f, "{} K", cmyk)?,
             Op::StrokeColor { color: Color::Other(ref args) } =>  {
@@ -671,7 +686,7 @@ pub fn serialize_ops(mut ops: &[Op]) -> Result<Vec<u8>> {
                 }
                 writeln!(f, "SCN")?;
             }
-            Op::FillColor { color: Color::Gray(g) } => writeln!(f, "{} g", g)?,
+            Op::FillColor { color: Color::Gray(g) } => writeln!(f, "{} g", Real(g))?,
             Op::FillColor { color: Color::Rgb(rgb) } => writeln!(f, "{} rg", rgb)?,
             Op::FillColor { color: Color::Cmyk(cmyk) } => writeln!(f, "{} k", cmyk)?,
             Op::FillColor { color: Color::Other(ref args) } => {
@@ -693,7 +708,7 @@ pub fn serialize_ops(mut ops: &[Op]) -> Result<Vec<u8>> {
             Op::RenderingIntent { intent } => writeln!(f, "/{} ri", intent.to_str())?,
             Op::BeginText => writeln!(f, "BT")?,
             Op::EndText => writeln!(f, "ET")?,
-            Op::CharSpacing { char_space } => writeln!(f, "{} Tc", char_space)?,
+            Op::CharSpacing { char_space } => writeln!(f, "{} Tc", Real(char_space))?,
             Op::WordSpacing { word_space } => {
                 if let [
                     Op::CharSpacing { char_space },
@@ -701,31 +716,31 @@ pub fn serialize_ops(mut ops: &[Op]) -> Result<Vec<u8>> {
                     Op::TextDraw { ref text },
                     ..
                 ] = ops[1..] {
-                    write!(f, "{} {} ", word_space, char_space)?;
+                    write!(f, "{} {} ", Real(word_space), Real(char_space))?;
                     text.serialize(f)?;
                     writeln!(f, " \"")?;
                     advance += 3;
                 } else {
-                    writeln!(f, "{} Tw", word_space)?;
+                    writeln!(f, "{} Tw", Real(word_space))?;
                 }
             }
-            Op::TextScaling { horiz_scale } => writeln!(f, "{} Tz", horiz_scale)?,
+            Op::TextScaling { horiz_scale } => writeln!(f, "{} Tz", Real(horiz_scale))?,
             Op::Leading { leading } => match ops[1..] {
                 [Op::MoveTextPosition { translation }, ..] if leading == -translation.y => {
-                    writeln!(f, "{} {} TD", translation.x, translation.y)?;
+                    writeln!(f, "{} TD", translation)?;
                     advance += 1;
                 }
                 _ => {
-                    writeln!(f, "{} TL", leading)?;
+                    writeln!(f, "{} TL", Real(leading))?;
                 }
             }
             Op::TextFont { ref name, ref size } => {
                 serialize_name(name, f)?;
-                writeln!(f, " {} Tf", size)?;
+                writeln!(f, " {} Tf", Real(*size))?;
             },
             Op::TextRenderMode { mode } => writeln!(f, "{} Tr", mode as u8)?,
-            Op::TextRise { rise } => writeln!(f, "{} Ts", rise)?,
-            Op::MoveTextPosition { translation } => writeln!(f, "{} {} Td", translation.x, translation.y)?,
+            Op::TextRise { rise } => writeln!(f, "{} Ts", Real(rise))?,
+            Op::MoveTextPosition { translation } => writeln!(f, "{} Td", translation)?,
             Op::SetTextMatrix { matrix } => writeln!(f, "{} Tm", matrix)?,
             Op::TextNewline => {
                 if let [Op::TextDraw { ref text }, ..] = ops[1..] {
@@ -747,7 +762,7 @@ pub fn serialize_ops(mut ops: &[Op]) -> Result<Vec<u8>> {
                         write!(f, " ")?;
                     }
                     match val {
-                        TextDrawAdjusted::Spacing(s) => write!(f, "{s}")?,
+                        TextDrawAdjusted::Spacing(s) => write!(f, "{}", Real(*s))?,
                         TextDrawAdjusted::Text(data) => data.serialize(f)?,
                     }
                 }
@@ -815,7 +830,7 @@ pub struct Point {
 }
 impl Display for Point {
     fn fmt(&self, f: &mut fmt::Formatter) -> fmt::Result {
-        write!(f, "{} {}", self.x, self.y)
+        write!(f, "{} {}", Real(self.x), Real(self.y))
     }
 }
 #[cfg(feature = "euclid")]
@@ -870,7 +885,7 @@ pub type Rect = ViewRect;
 
 impl Display for ViewRect {
     fn fmt(&self, f: &mut fmt::Formatter) -> fmt::Result {
-        write!(f, "{} {} {} {}", self.x, self.y, self.width, self.height)
+        write!(f, "{} {} {} {}", Real(self.x), Real(self.y), Real(self.width), Real(self.height))
     }
 }
 #[cfg(feature = "euclid")]
@@ -910,7 +925,7 @@ pub struct Matrix {
 }
 impl Display for Matrix {
     fn fmt(&self, f: &mut fmt::Formatter) -> fmt::Result {
-        write!(f, "{} {} {} {} {} {}", self.a, self.b, self.c, self.d, self.e, self.f)
+        write!(f, "{} {} {} {} {} {}", Real(self.a), Real(self.b), Real(self.c), Real(self.d), Real(self.e), Real(self.f))
     }
 }
 impl Default for Matrix {
@@ -983,7 +998,7 @@ pub struct Rgb {
 }
 impl Display for Rgb {
     fn fmt(&self, f: &mut fmt::Formatter) -> fmt::Result {
-        write!(f, "{} {} {}", self.red, self.green, self.blue)
+        write!(f, "{} {} {}", Real(self.red), Real(self.green), Real(self.blue))
     }
 }
 
@@ -996,7 +1011,7 @@ pub struct Cmyk {
 }
 impl Display for Cmyk {
     fn fmt(&self, f: &mut fmt::Formatter) -> fmt::Result {
-        write!(f, "{} {} {} {}", self.cyan, self.magenta, self.yellow, self.key)
+        write!(f, "{} {} {} {}", Real(self.cyan), Real(self.magenta), Real(self.yellow), Real(self.key))
     }
 }
 
